@@ -1,5 +1,6 @@
 import NbioVerif.Properties.C06
 import NbioVerif.Lemmas.HttpTables
+import NbioVerif.Lemmas.SrcBridgeHttp
 #print axioms Scan.implParse_eq_spec
 #print axioms Scan.specFeed_append
 #print axioms Http.wf
@@ -19,3 +20,4 @@ import NbioVerif.Lemmas.HttpTables
 #print axioms Http.validMethods_table
 #print axioms Http.state_table
 #print axioms Http.isToken_rfc
+#print axioms Http.src_isToken
